@@ -1667,7 +1667,7 @@ return 1;""",
                 "default:+\n"
                 "PyErr_SetString(PyExc_ValueError,"
                 "\t \"Wrong number of arguments\");\n"
-                "return {nullptr};\n"
+                "return {PY_error_return};\n"
 #                "goto fail;\n"
                 "-}}",
                 fmt)
